@@ -16,8 +16,9 @@ RULE = ("poly.div cases for every dividend length 0..11 (empty, degree 0..10) x 
         "reciprocal that does not round-trip (49, 98, 103, ...: computed, 1/d*d != 1); general f64 with coefficient ratios up to 1e6; Complex<f64>; "
         "structured dividends u = q0*v + r0 with zero interior quotient coefficients and sparse binomial operands (multi-degree drops of the remainder); "
         "all-zero and empty divisors; divisors with a zero leading coefficient (outside the claim: tie only; floats must still terminate); "
-        "special STRUCTURE: div-self-* (kind poly.divself: u.polydiv(&u), dividend and divisor the SAME object, u empty / all-zero of either sign / constant / random / structured; every "
-        "poly.div case also runs u.polydiv(&u) and v.polydiv(&v) against the cloned-operand form inside the executor), div-related-* (u = v by value, -v, c*v, x^k*v, v*v, v reversed, one "
+        "special STRUCTURE: div-self-* (kind poly.divself: u.polydiv(&u), dividend and divisor the SAME object, u empty / all-zero of either sign / constant / random / structured; "
+        "div-sameobj-* (kind poly.divpair, search-only: for the dividend and the divisor w of every poly.div case, w.polydiv(&w) and w.polydiv(&w.clone()), each answer judged by the "
+        "property itself -- identity, degree condition, zero-divisor error, no panic -- and the two outcome classes equal; no representation of q, r is demanded), div-related-* (u = v by value, -v, c*v, x^k*v, v*v, v reversed, one "
         "coefficient different), div-special-lead-* (leading coefficient of the divisor 1 -1 2 1/2 -2 -1/2 3, also among general inexact f64 coefficients; Complex: +-k, +-ki, +-i, 1+-i, with "
         "the dividend's leading coefficient from the same menu half of the time), zero-divisor-signed-* / zero-divisor-equal-rat (all-zero divisors of lengths 1..7 with zeros of either sign, "
         "[-0.0] included; dividend empty / all-zero / random / equal to the divisor by value), div-rotated-cplx (exact Gaussian-integer divisions and real ones turned by powers of i: both "
@@ -162,7 +163,26 @@ def generate(rng, tier):
             cases.append(mk_div(fam, [conv_to(fam, a) for a in u], [conv_to(fam, a) for a in v],
                                 "div-sparse-" + fam, nontrivial=(lu >= lv)))
     cases += special_structure_cases(rng, tier)
+    cases += same_object_pairs(cases)
     return rng.fork("order").shuffle(cases)          # balanced coqc shards
+
+def same_object_pairs(cases):
+    """div-sameobj-<elt>: for the dividend u and the divisor v of every poly.div case, kind poly.divpair: w.polydiv(&w) (dividend and
+    divisor the SAME object) and w.polydiv(&w.clone()), both answers in one stream.  The executor compares nothing: the oracle judges
+    each answer by the property itself (u = q*v + r, r = 0 or deg r < deg v; the zero-divisor error for the empty / all-zero w; never a
+    panic) and demands the same outcome class of both.  C12 pins no particular representation of q and r: a shortcut returning
+    (q = [1], r = []) for w / w satisfies it as well as the general loop's (q = [1], r = [0, ...]).  A non-zero w with a vanishing leading
+    coefficient is outside the claim as a divisor: skipped."""
+    out, seen = [], set()
+    for c in cases:
+        if c.meta.get("kind") != "div": continue
+        _, (u, v) = case_vals(c)
+        for w in (u, v):
+            if w and w[-1] == 0 and any(a != 0 for a in w): continue
+            p = mk_case(c.elt, "divpair", [w], "div-sameobj-" + c.elt, nontrivial=bool(w) and any(a != 0 for a in w), tol=1e-9)
+            if p.line in seen: continue
+            seen.add(p.line); out.append(p)
+    return out
 
 def nz_special(fam):
     return [v for v in special_scalars(ELT[fam]) if v != 0]
@@ -181,8 +201,8 @@ def imul(elt, p, k):
 def special_structure_cases(rng, tier):
     """Operands with special STRUCTURE (the families above draw dividend and divisor independently of one another):
       div-self-<fam>          u.polydiv(&u): dividend and divisor the SAME object (kind poly.divself; twin run_div u u), u
-                              empty, all-zero (either sign of zero), constant, random, structured; every poly.div case also
-                              runs u.polydiv(&u) and v.polydiv(&v) against the cloned-operand form inside the executor
+                              empty, all-zero (either sign of zero), constant, random, structured; the dividend and the divisor
+                              of every poly.div case also run as poly.divpair (same_object_pairs below)
       div-related-<fam>       u in a relation to v: equal values, -v, c*v, x^k*v, v*v, v reversed, one coefficient different
       div-special-lead-<fam>  leading coefficient of the divisor 1, -1, 2, 1/2, -2, -1/2 (also among general inexact f64
                               coefficients, where the random families never have a monic divisor); Complex: on the axes
@@ -304,46 +324,39 @@ def special_structure_cases(rng, tier):
     return cases
 
 def case_from_json(j):
-    return case_from_json_common(j, ("div", "divself"))
+    return case_from_json_common(j, ("div", "divself", "divpair"))
 
 # ------------------------------------------------------------------ oracle
-def oracle(case, items):
-    kind, uv = case_vals(case)
-    u, v = (uv[0], uv[0]) if kind == "divself" else uv         # poly.divself: u.polydiv(&u)
-    elt = case.elt
-    U, V = [exact(elt, a) for a in u], [exact(elt, a) for a in v]
+def judge(st, elt, U, V, who):
+    """reads ONE answer of polydiv(U, V) from the stream and judges it by the property; returns (outcome class, message or None);
+    outcome class: 'P' (panic) or the outcome code 0 Ok | 1 zero-divisor error | 2 iteration cap | 3 other error"""
     z = zero_of(elt)
     zero_div = (len(V) == 0) or all(a == 0 for a in V)
     lead_zero = (not zero_div) and V[-1] == 0
-    who = "polydiv on %s, u=%s, v=%s%s: " % (elt, [str(a) for a in U], [str(a) for a in V], " (u.polydiv(&u), the same object)" if kind == "divself" else "")
-    if not items:
-        return who + "empty answer"
-    if items[-1][0] == 'P':
+    if st.done():
+        return None, who + "empty answer"
+    if st.peek_panic():
+        cls = st.items[st.pos][1]; st.pos += 1
         if lead_zero and elt == 'rat':
-            return None      # zero leading coefficient is outside the claim; over the exact type the division itself panics
-        return who + "panicked (%s): the routine must never panic" % items[-1][1]
-    st = Stream(elt, items)
-    try:
-        code = st.int()
-        if zero_div:
-            if code != 1: return who + "division by the empty / all-zero polynomial must be reported as an error, got outcome %d" % code
-            return None
-        if code == 2:
-            return who + "returned Err(exceeded maximum iterations): the loop spins (at most deg u + 1 passes are ever needed)"
-        if code != 0:
-            return who + "returned an error (outcome %d) for a divisor that is not the zero polynomial" % code
-        Qp = st.poly(); R = st.poly()
-        if not st.done(): return who + "trailing items in the answer"
-    except (StreamError, IndexError) as e:
-        return who + "answer stream malformed: %s" % e
+            return 'P', None      # zero leading coefficient is outside the claim; over the exact type the division itself panics
+        return 'P', who + "panicked (%s): the routine must never panic" % cls
+    code = st.int()
+    if zero_div:
+        if code != 1: return code, who + "division by the empty / all-zero polynomial must be reported as an error, got outcome %d" % code
+        return code, None
+    if code == 2:
+        return code, who + "returned Err(exceeded maximum iterations): the loop spins (at most deg u + 1 passes are ever needed)"
+    if code != 0:
+        return code, who + "returned an error (outcome %d) for a divisor that is not the zero polynomial" % code
+    Qp = st.poly(); R = st.poly()
     if lead_zero:
         # outside the quantifier (leading coefficient zero): only "terminates without a panic" is demanded, and that is what we got
-        return None
+        return code, None
     if not (poly_finite(Qp) and poly_finite(R)):
-        return who + "quotient or remainder is not finite: q=%s r=%s" % (Qp, R)
+        return code, who + "quotient or remainder is not finite: q=%s r=%s" % (Qp, R)
     # degree condition: r = 0 or deg r < deg v   (formal degrees, as the code reports them)
     if not (all(a == 0 for a in R) or len(R) < len(V)):
-        return who + "remainder %s is neither zero nor of lower degree than the divisor" % [str(a) for a in R]
+        return code, who + "remainder %s is neither zero nor of lower degree than the divisor" % [str(a) for a in R]
     # identity u = q*v + r, recomputed independently in exact arithmetic
     QV = ref_mul(Qp, V, z)
     n = max(len(U), len(QV), len(R))
@@ -351,12 +364,45 @@ def oracle(case, items):
     resid = [get(U, i) - (get(QV, i) + get(R, i)) for i in range(n)]
     if elt == 'rat':
         if any(not (a == 0) for a in resid):
-            return who + "u != q*v + r exactly: q=%s r=%s residual=%s" % ([str(a) for a in Qp], [str(a) for a in R], [str(a) for a in resid])
-        return None
+            return code, who + "u != q*v + r exactly: q=%s r=%s residual=%s" % ([str(a) for a in Qp], [str(a) for a in R], [str(a) for a in resid])
+        return code, None
     vmax = max([mag(a) for a in V])
     scale = max([mag(a) for a in U] + [0]) + sum(mag(a) for a in Qp) * vmax * (2 if elt == 'cplx' else 1) + max([mag(a) for a in R] + [0])
     worst = max([mag(a) for a in resid] + [0])
-    if worst > Fraction(1, 10 ** 10) * scale:
-        return who + "u - (q*v + r) has a coefficient of size %.3e, above 1e-10 * scale (scale %.3e): q=%s r=%s" % (
+    if not (worst <= Fraction(1, 10 ** 10) * scale):
+        return code, who + "u - (q*v + r) has a coefficient of size %.3e, above 1e-10 * scale (scale %.3e): q=%s r=%s" % (
             float(worst), float(scale), [float(mag(a)) for a in Qp], [float(mag(a)) for a in R])
+    return code, None
+
+def oracle(case, items):
+    kind, uv = case_vals(case)
+    u, v = (uv[0], uv[0]) if kind in ("divself", "divpair") else uv         # poly.divself / poly.divpair: u.polydiv(&u)
+    elt = case.elt
+    U, V = [exact(elt, a) for a in u], [exact(elt, a) for a in v]
+    who = "polydiv on %s, u=%s, v=%s%s: " % (elt, [str(a) for a in U], [str(a) for a in V], " (u.polydiv(&u), the same object)" if kind == "divself" else "")
+    if not items:
+        return who + "empty answer"
+    st = Stream(elt, items)
+    if kind == "divpair":
+        # two answers: w.polydiv(&w), the same object, then w.polydiv(&w.clone()); EACH is judged by the property (not against the other:
+        # C12 pins no representation of q and r), and the outcome class -- Ok / zero-divisor error / cap / panic -- must be the same
+        try:
+            c1, m1 = judge(st, elt, U, V, who + "[w.polydiv(&w), dividend and divisor the same object] ")
+            if m1: return m1
+            c2, m2 = judge(st, elt, U, V, who + "[w.polydiv(&w.clone())] ")
+            if m2: return m2
+            if not st.done(): return who + "trailing items in the answer"
+        except (StreamError, IndexError) as e:
+            return who + "answer stream malformed: %s" % e
+        if c1 != c2:
+            return who + "w.polydiv(&w) (the same object) has outcome class %r, w.polydiv(&w.clone()) has %r: a shortcut keyed on the identity of the operands changes the outcome" % (c1, c2)
+        return None
+    if items[-1][0] == 'P':           # (a panic ends the answer of poly.div / poly.divself)
+        st.pos = len(items) - 1
+    try:
+        _, msg = judge(st, elt, U, V, who)
+        if msg: return msg
+        if not st.done(): return who + "trailing items in the answer"
+    except (StreamError, IndexError) as e:
+        return who + "answer stream malformed: %s" % e
     return None
